@@ -21,7 +21,9 @@ if [ "$c0" = 0 ] && [ "$c1" != 0 ] && echo "$base" | grep -q "stable_missing=0";
   python3 - "$name" "$prop" "$needs" "$c0" "$c1" "$base" <<'PY'
 import json, sys
 name, prop, needs, c0, c1, base = sys.argv[1:]
-json.dump({'property': prop, 'needs_to_manifest': needs,
+import subprocess
+base = subprocess.run(['git', '-C', '/repo', 'rev-parse', '--short', 'HEAD'], capture_output=True, text=True).stdout.strip()
+json.dump({'property': prop, 'needs_to_manifest': needs, 'base': base,
            'confirmed': {'demo_exit_clean': int(c0), 'demo_exit_patched': int(c1), 'baseline_with_patch': base,
                          'how': 'tools/verify_seed.sh in a fresh scratch worktree of /repo HEAD'},
            'origin': 'independent sub-agent given only the property text and a scratch worktree'},
